@@ -990,13 +990,14 @@ static int janet_channel_push_with_lock(JanetChannel *channel, Janet x, int mode
     JanetChannelPending reader;
     int is_empty;
     JANET_VERIF_POINT(janet_chan_is_threaded(channel) ? 1 : 0, &channel->lock);
-    if (janet_chan_pack(channel, &x)) {
-        janet_chan_unlock(channel);
-        janet_panicf("failed to pack value for channel: %v", x);
-    }
+    /* (before packing: the transit buffer of a thread channel would leak) */
     if (channel->closed) {
         janet_chan_unlock(channel);
         janet_panic("cannot write to closed channel");
+    }
+    if (janet_chan_pack(channel, &x)) {
+        janet_chan_unlock(channel);
+        janet_panicf("failed to pack value for channel: %v", x);
     }
     int is_threaded = janet_chan_is_threaded(channel);
     if (is_threaded) {
